@@ -50,8 +50,12 @@ impl<T: Value> ExpertEdge for Edge<T> {
     fn on_change(&self) {
         let mut handler = self.on_change.borrow_mut();
         if let Some(h) = &mut *handler {
-            let v = self.child.node.value_as_ref();
-            h(v.as_ref().unwrap());
+            // The child does not necessarily have a value yet: the callback may be due because the
+            // edge was just linked to a child that has never been computed. It will run again, with
+            // the value, when the child changes.
+            if let Some(v) = self.child.node.value_as_ref() {
+                h(&v);
+            }
         }
     }
     fn packed(&self) -> NodeRef {
